@@ -46,6 +46,10 @@ pub struct ZalsaLocal {
     most_recent_pages: UnsafeCell<FxHashMap<IngredientIndex, PageIndex>>,
 
     cancelled: CancellationToken,
+
+    /// Identity of this handle in verification traces.
+    #[cfg(salsa_verif)]
+    verif_id: u64,
 }
 
 /// A cancellation token that can be used to cancel a query computation for a specific local `Database`.
@@ -91,14 +95,26 @@ impl ZalsaLocal {
             query_stack: RefCell::new(QueryStack::default()),
             most_recent_pages: UnsafeCell::new(FxHashMap::default()),
             cancelled: CancellationToken::default(),
+            #[cfg(salsa_verif)]
+            verif_id: crate::verif_trace::next_handle_id(),
         }
     }
 
     pub(crate) fn record_unfilled_pages(&mut self, table: &Table) {
         let most_recent_pages = self.most_recent_pages.get_mut();
-        most_recent_pages
-            .drain()
-            .for_each(|(ingredient, page)| table.record_unfilled_page(ingredient, page));
+        #[cfg(salsa_verif)]
+        let verif_id = self.verif_id;
+        most_recent_pages.drain().for_each(|(ingredient, page)| {
+            #[cfg(salsa_verif)]
+            crate::verif_trace::emit_with("alloc", "handle_release", |_, o| {
+                o.push_str(&format!(
+                    "h{verif_id} {} {}",
+                    ingredient.as_u32(),
+                    page.as_usize()
+                ))
+            });
+            table.record_unfilled_page(ingredient, page)
+        });
     }
 
     /// Allocate a new id in `table` for the given ingredient
@@ -121,7 +137,11 @@ impl ZalsaLocal {
             // SAFETY: `ZalsaLocal` is `!Sync`, and we only insert a page into `most_recent_pages`
             // if it was allocated by our thread, so we are the unique writer.
             match unsafe { page_ref.allocate(page, value) } {
-                Ok((id, value)) => return (id, value),
+                Ok((id, value)) => {
+                    #[cfg(salsa_verif)]
+                    self.verif_got(ingredient, id);
+                    return (id, value);
+                }
                 Err(v) => value = v,
             }
         }
@@ -150,9 +170,12 @@ impl ZalsaLocal {
 
         // Find the most recent page, pushing a page if needed
         let mut page = *most_recent_pages.entry(ingredient).or_insert_with(|| {
-            zalsa
+            let page = zalsa
                 .table()
-                .fetch_or_push_page::<T>(ingredient, memo_types)
+                .fetch_or_push_page::<T>(ingredient, memo_types);
+            #[cfg(salsa_verif)]
+            self.verif_page(ingredient, page);
+            page
         });
 
         loop {
@@ -163,7 +186,11 @@ impl ZalsaLocal {
             // if it was allocated by our thread, so we are the unique writer.
             match unsafe { page_ref.allocate(page, value) } {
                 // If successful, return
-                Ok((id, value)) => return (id, value),
+                Ok((id, value)) => {
+                    #[cfg(salsa_verif)]
+                    self.verif_got(ingredient, id);
+                    return (id, value);
+                }
 
                 // Otherwise, create a new page and try again.
                 //
@@ -173,6 +200,8 @@ impl ZalsaLocal {
                     value = v;
                     page = zalsa.table().push_page::<T>(ingredient, memo_types());
                     most_recent_pages.insert(ingredient, page);
+                    #[cfg(salsa_verif)]
+                    self.verif_page(ingredient, page);
                 }
             }
         }
@@ -180,6 +209,14 @@ impl ZalsaLocal {
 
     #[inline]
     pub(crate) fn push_query(&self, database_key_index: DatabaseKeyIndex) -> ActiveQueryGuard<'_> {
+        #[cfg(salsa_verif)]
+        crate::verif_trace::emit_with("memo", "exec", |_, o| {
+            o.push_str(&format!(
+                "h{} {}",
+                self.verif_id,
+                crate::verif_trace::K(database_key_index)
+            ))
+        });
         // SAFETY: We do not access the query stack reentrantly.
         unsafe {
             self.with_query_stack_unchecked_mut(|stack| {
@@ -476,12 +513,52 @@ impl ZalsaLocal {
 
     #[cold]
     pub(crate) fn unwind_pending_write(&self) {
+        #[cfg(salsa_verif)]
+        crate::verif_trace::emit_with("cancel", "unwind", |_, o| {
+            o.push_str(&format!("h{} PendingWrite", self.verif_id))
+        });
         Cancelled::PendingWrite.throw();
     }
 
     #[cold]
     pub(crate) fn unwind_cancelled(&self) {
+        #[cfg(salsa_verif)]
+        crate::verif_trace::emit_with("cancel", "unwind", |_, o| {
+            o.push_str(&format!("h{} Local", self.verif_id))
+        });
         Cancelled::Local.throw();
+    }
+
+    /// Verification hook: this handle now caches `page` for `ingredient`.
+    #[cfg(salsa_verif)]
+    fn verif_page(&self, ingredient: IngredientIndex, page: PageIndex) {
+        crate::verif_trace::emit_with("alloc", "handle_page", |_, o| {
+            o.push_str(&format!(
+                "h{} {} {}",
+                self.verif_id,
+                ingredient.as_u32(),
+                page.as_usize()
+            ))
+        });
+    }
+
+    /// Verification hook: this handle allocated `id` on its cached page.
+    #[cfg(salsa_verif)]
+    fn verif_got(&self, ingredient: IngredientIndex, id: Id) {
+        let (page, slot) = crate::table::verif_hooks::split_id(id.index());
+        crate::verif_trace::emit_with("alloc", "got", |_, o| {
+            o.push_str(&format!(
+                "h{} {} {page} {slot}",
+                self.verif_id,
+                ingredient.as_u32()
+            ))
+        });
+    }
+
+    /// Verification hook: identity of this handle in traces (`h<N>`).
+    #[cfg(salsa_verif)]
+    pub fn verif_id(&self) -> u64 {
+        self.verif_id
     }
 
     #[inline]
